@@ -47,33 +47,45 @@ def split_tables(prog, rep):
 
 
 def area_wiring(prog, rep):
+    """R06.2 on path summaries (helpers introduced by an edit inlined): fill_area offsets the primitive by minus the inside
+    stroke width for a solid stroke and by 0 otherwise; stroke_area by the outside stroke width on its only path."""
+    from mirq.paths import Paths, Unsupported, show_fact
+    P_ = Paths(prog, inline=lambda g: prog.is_new(g))
     fa = prog.method1(PS, "fill_area", None)
+    sa_ = prog.method1(PS, "stroke_area", None)
     inside = ("call", "*::inside_stroke_width", "_", (P(1, "self"),))
-    neg_in = ("call", "*Neg>::neg", "_", (("call", "*SaturatingAs>::saturating_as", "_", (inside,)),))
+    outside = ("call", "*::outside_stroke_width", "_", (P(1, "self"),))
+    sat = lambda x: ("call", "*SaturatingAs>::saturating_as", "_", (x,))
+    style_f = ("field", P(1, "self"), field_index(prog, PS, "stroke_style"))
     seen = {}
-    for lits, ret, _ in decisions(fa):
-        r = strip_refs(ret)
-        m = match(r, ("call", "*::offset", "_", (P(2, "primitive"), "?off")))
-        solid = None
-        for d, lit in lits:
-            d = strip_refs(d)
-            if d[0] == "call" and d[1].endswith("::eq") and any("StrokeStyle::Solid" in str(n[1]) for n in walk(d) if n[0] == "agg"):
-                solid = lit_truth(lit)
-            if d[0] == "call" and d[1].endswith("::ne") and any("StrokeStyle::Solid" in str(n[1]) for n in walk(d) if n[0] == "agg"):
-                solid = not lit_truth(lit)
-        if m is None:
-            seen[solid] = None
-            continue
-        off = m["?off"]
-        # un-negated form: Neg(x) may also appear as neg of a cast
-        if match(off, neg_in) is not None or match(off, ("un", "Neg", ("call", "*SaturatingAs>::saturating_as", "_", (inside,)))) is not None:
-            seen[solid] = "-inside"
-        elif off == ("const", 0):
-            seen[solid] = "0"
-        else:
-            seen[solid] = show(off)
+    try:
+        for sm in P_.of(fa):
+            r = strip_refs(sm.ret)
+            m = match(r, ("call", "*::offset", "_", (P(2, "primitive"), "?off")))
+            vs = [set(f[2]) for f in sm.facts if f[0] == "variant" and strip_refs(f[1]) == style_f]
+            other = [f for f in sm.facts if not (f[0] == "variant" and strip_refs(f[1]) == style_f)]
+            solid = None if (len(vs) != 1 or other) else (True if vs[0] == {"Solid"} else (False if "Solid" not in vs[0] else None))
+            if m is None:
+                seen[solid] = show(r, maxd=4)
+                continue
+            off = m["?off"]
+            if match(off, ("un", "Neg", sat(inside))) is not None or match(off, ("call", "*Neg>::neg", "_", (sat(inside),))) is not None or match(off, sat(("un", "Neg", inside))) is not None and False:
+                seen[solid] = "-inside"
+            elif off == ("const", 0):
+                seen[solid] = "0"
+            else:
+                seen[solid] = show(off)
+    except Unsupported as e:
+        seen = {"?": "cannot summarise: %s" % e}
     rep.check(seen == {True: "-inside", False: "0"}, "R06.2", "fill_area",
-              "fill_area must shrink the primitive by the inside stroke width for a solid stroke and not at all otherwise; found %s" % seen, at=fa.span, fn=fa.path, detail=seen)
+              "fill_area must shrink the primitive by the inside stroke width for a solid stroke and not at all otherwise; found %s" % seen, at=fa.span, fn=fa.path, detail={str(k): v for k, v in seen.items()})
+    try:
+        ss = P_.of(sa_)
+        ok = len(ss) == 1 and not ss[0].facts and match(strip_refs(ss[0].ret), ("call", "*::offset", "_", (P(2, "primitive"), sat(outside)))) is not None
+        found = "; ".join(show(x.ret, maxd=5) for x in ss[:2])
+    except Unsupported as e:
+        ok, found = False, "cannot summarise: %s" % e
+    rep.check(ok, "R06.2", "stroke_area", "stroke_area must grow the primitive by the outside stroke width (saturating) on its only path; found %s" % found, at=sa_.span, fn=sa_.path)
     ST = PRIM + "styled::Styled"
     for nm in ("fill_area", "stroke_area"):
         c = [f for f in prog.fns.values() if f.name == nm and f.impl and prog.impls[f.impl]["self_ty"].get("adt") == ST]
@@ -92,12 +104,34 @@ def pairing(prog, rep, rule):
             "draw_stroke_and_fill": {("stroke_left", "stroke_color"), ("fill", "fill_color"), ("stroke_right", "stroke_color")}}
     for nm, w in want.items():
         f = prog.method1(SS, nm, None)
-        got = set()
-        for bi, a, t in sites(f, "draw"):
-            acc = a[0][1].split("::")[-1] if a[0][0] == "call" and a[0][3] == (P(1, "self"),) else "?"
-            col = a[2][2] if a[2][0] == "param" else "?"
-            got.add((acc, col))
-        rep.check(got == w, rule, "draw-path:" + nm, "%s must draw %s; draws %s" % (nm, sorted(w), sorted(got)), at=f.span, fn=f.path)
+        # path summaries (closures of and_then / try_for_each expanded): the path on which no draw fails draws exactly
+        # the wanted (segment, colour) pairs, every other path a prefix-subset of them and ends in that draw's error
+        from mirq.paths import Paths, Unsupported, passes_result
+        try:
+            summs = Paths(prog, inline=lambda g: prog.is_new(g)).of(f)
+        except Unsupported as e:
+            rep.check(False, rule, "draw-path:" + nm, "cannot summarise %s: %s" % (nm, e), status="undecided", at=f.span, fn=f.path)
+            continue
+        full, bad = [], []
+        for sm in summs:
+            got = set()
+            for e in sm.effects:
+                if e[0] == "call" and e[1][1].endswith("Scanline::draw") and len(e[1][3]) == 3:
+                    a = e[1][3]
+                    a0 = strip_refs(a[0])
+                    acc = a0[1].split("::")[-1] if a0[0] == "call" and len(a0[3]) == 1 and strip_refs(a0[3][0]) == P(1, "self") else "?"
+                    col = strip_refs(a[2])[2] if strip_refs(a[2])[0] == "param" else "?"
+                    got.add((acc, col))
+                elif e[0] == "call":
+                    got.add(("?", e[1][1].split("::")[-1]))
+            failed = [fct for fct in sm.facts if fct[0] == "variant" and fct[2] == ("Err",)]
+            if failed:
+                if not got <= w:
+                    bad.append("a failing path draws %s" % sorted(got - w))
+            else:
+                full.append(got)
+        ok = not bad and len(full) >= 1 and all(g == w for g in full)
+        rep.check(ok, rule, "draw-path:" + nm, "%s must draw %s; draws %s%s" % (nm, sorted(w), [sorted(g) for g in full], "; " + "; ".join(bad) if bad else ""), at=f.span, fn=f.path)
     # accessors
     fr = {"stroke_left": ("stroke_range", 0, "fill_range", 0), "fill": ("fill_range", 0, "fill_range", 1), "stroke_right": ("fill_range", 1, "stroke_range", 1)}
     for nm, (r1, i1, r2, i2) in fr.items():
@@ -146,39 +180,38 @@ def pairing(prog, rep, rule):
                         if not (t["f"].get("path", "").endswith("StyledScanline::" + fname)):
                             bad.append("%s <- %s" % (fname, t["f"].get("path")))
         rep.check(not bad and n_ref >= 6, rule, "pixel-path:%s:refill" % shape, "each segment iterator must be refilled from the accessor of the same name; mismatches %s (%d refills)" % (bad, n_ref), at=nx.span, fn=nx.path)
-        # (2) colour closures: Pixel(p, ^colour) mapped over self.F.next()
+        # (2) colour pairing on the path summaries of next() (loops walked once, closures of or_else / map expanded):
+        # every returned pixel is Pixel(item of self.<segment>.next(), the colour matched out of self.<colour>)
+        from mirq.paths import Paths, Unsupported, variant_of
         pairs = set()
-        fam = [nx]
-        i = 0
-        while i < len(fam):
-            fam.extend(prog.closures_of.get(fam[i].id, []))
-            i += 1
-        for g in fam:
-            go = Origins(g)
-            for bi in sorted(go.cfg.live_blocks()):
-                t = g.body["blocks"][bi]["t"]
-                if not (t and t["k"] == "call" and t["f"].get("name") == "map"):
-                    continue
-                a = [strip_refs(x) for x in go.term_args(bi)]
-                c, cr, caps = closure_ret(prog, a[1])
-                if cr is None:
-                    continue
-                m = match(cr, ("agg", "*Pixel::Pixel", (("param", 2, "?pn"), ("upvar", "?k", "?cname"))))
-                if m is None:
-                    continue
-                subj = a[0]
-                seg = None
-                for n in walk(subj):
-                    mm = match(n, ("call", "*Scanline as core::iter::traits::iterator::Iterator>::next", "_", ("?s",)))
-                    if mm is not None:
-                        s_ = mm["?s"]
-                        # self.F or upvar self.F
-                        for nn in walk(s_):
-                            if nn[0] == "field" and isinstance(nn[2], int) and (nn[1] == P(1, "self") or (nn[1][0] == "upvar" and nn[1][2] == "self")):
-                                seg = [k for k, v in fidx.items() if v == nn[2]][0]
-                            if nn[0] == "upvar" and isinstance(nn[2], str) and nn[2].startswith("self__"):
-                                seg = nn[2][len("self__"):]
-                pairs.add((seg, m["?cname"]))
+        rname = {v: k for k, v in fidx.items()}
+        try:
+            summs = Paths(prog, inline=lambda g: prog.is_new(g), loops="once", limit=6000).of(nx)
+        except Unsupported as e:
+            rep.check(False, rule, "pixel-path:%s:colours" % shape, "cannot summarise next(): %s" % e, status="undecided", at=nx.span, fn=nx.path)
+            continue
+
+        def field_of_self(t):
+            for nn in walk(t):
+                if nn[0] == "field" and isinstance(nn[2], int) and strip_refs(nn[1]) == P(1, "self"):
+                    return rname.get(nn[2])
+            return None
+        for sm in summs:
+            r = sm.ret
+            if r is None:
+                continue
+            vo = variant_of(r)
+            if vo is not None and vo[1] == "None":
+                continue
+            px = r[2][0] if vo is not None and vo[1] == "Some" and r[2] else None
+            if px is None or not (px[0] == "agg" and str(px[1]).endswith("Pixel::Pixel") and len(px[2]) == 2):
+                pairs.add(("?", show(r, maxd=3)[:60]))
+                continue
+            pt, col = px[2]
+            seg = None
+            if pt[0] == "payload" and pt[1][0] == "call" and pt[1][1].split("::")[-1] == "next":
+                seg = field_of_self(pt[1][3][0])
+            pairs.add((seg, field_of_self(col)))
         want_p = {("stroke_left", "stroke_color"), ("stroke_right", "stroke_color"), ("fill", "fill_color")}
         rep.check(pairs == want_p, rule, "pixel-path:%s:colours" % shape,
                   "pixels() must colour stroke_left/stroke_right with the stroke colour and fill with the fill colour (same pairing as draw()); found %s" % sorted(pairs, key=str), at=nx.span, fn=nx.path,
